@@ -177,7 +177,8 @@ example : readCdata b!"<![CDATA[abc" = none ∧ readCdata b!"<![CDATA[abc]]>x" =
 
 /-- **The WBXML tree builder never opens a CDATA section directly inside a CDATA section**: over any
     event sequence, from the initial context, no CDATA frame sits on a CDATA frame (the printer
-    therefore never writes `<![CDATA[` twice in a row). -/
+    therefore never writes `<![CDATA[` twice in a row). Subsumed, since fix eb6f4c7, by
+    `cdata_only_on_top` below (`cdata_only_on_top_stackOk`). -/
 theorem cdata_never_nested (main : List Lang) (emb : Nat → Bytes → Option Tree) (events : List Event) :
     stackOk (events.foldl (buildStep main emb) {}) = true := by
   suffices h : ∀ (b : BState), stackOk b = true → stackOk (events.foldl (buildStep main emb) b) = true from
@@ -190,8 +191,131 @@ theorem cdata_never_nested (main : List Lang) (emb : Nat → Bytes → Option Tr
 theorem cdata_never_nested_step (main : List Lang) (emb : Nat → Bytes → Option Tree) (b : BState) (e : Event)
     (h : stackOk b = true) : stackOk (buildStep main emb b e) = true := buildStep_stackOk main emb b e h
 
+/-! ### CDATA sections hold character data only (after fix eb6f4c7)
+
+`wbxml_tree_clb_wbxml_start_element` now leaves a current CDATA node before it adds the element
+(`BState.leaveCdata`). Before the fix an element start while a CDATA section was open was attached
+*inside* the CDATA node (and a vObject `Data` element there opened a second section inside the
+first); the former witness is kept below as a regression (`cdata_former_witness_fixed`). -/
+
+/-- **A CDATA frame is only ever the top of the stack**: over any event sequence, from the initial
+    context, every CDATA frame is the innermost open frame and sits on an element frame — no element
+    frame and no CDATA frame is ever pushed on top of a CDATA frame. -/
+theorem cdata_only_on_top (main : List Lang) (emb : Nat → Bytes → Option Tree) (events : List Event) :
+    cdataOnlyOnTop (events.foldl (buildStep main emb) {}) = true :=
+  foldl_cdataOnlyOnTop main emb events {} rfl
+
+/-- One step: the invariant is preserved from any context that satisfies it. -/
+theorem cdata_only_on_top_step (main : List Lang) (emb : Nat → Bytes → Option Tree) (b : BState) (e : Event)
+    (h : cdataOnlyOnTop b = true) : cdataOnlyOnTop (buildStep main emb b e) = true :=
+  buildStep_cdataOnlyOnTop main emb b e h
+
+/-- `cdataOnlyOnTop` spelled out: no frame below the top is a CDATA frame, and a CDATA frame is never
+    the only frame. -/
+theorem cdata_only_on_top_meaning (b : BState) :
+    cdataOnlyOnTop b = true ↔
+      (∀ f ∈ b.stack.tail, isCdataKind f.kind = false) ∧ (∀ f, b.stack = [f] → isCdataKind f.kind = false) :=
+  cdataOnlyOnTop_iff b
+
+/-- … so the stack never holds two CDATA frames, over any event sequence. -/
+theorem cdata_at_most_one_open (main : List Lang) (emb : Nat → Bytes → Option Tree) (events : List Event) :
+    ((events.foldl (buildStep main emb) {}).stack.filter (fun f => isCdataKind f.kind)).length ≤ 1 :=
+  cdataOnlyOnTop_count _ (cdata_only_on_top main emb events)
+
+/-- … and it is stronger than `cdata_never_nested`'s invariant. -/
+theorem cdata_only_on_top_stackOk (b : BState) (h : cdataOnlyOnTop b = true) : stackOk b = true := by
+  unfold cdataOnlyOnTop at h
+  unfold stackOk
+  generalize b.stack.map (·.kind) = l at h
+  have hall : ∀ (l : List FrameKind), allEltKinds l = true → kindsOk l = true := by
+    intro l
+    induction l with
+    | nil => intro _; rfl
+    | cons a r ih =>
+      intro ha
+      simp only [allEltKinds, List.all_cons, Bool.and_eq_true, Bool.not_eq_true'] at ha
+      cases r with
+      | nil => rfl
+      | cons c r' =>
+        simp only [kindsOk, ha.1, Bool.false_and, Bool.not_false, Bool.true_and]
+        exact ih (by simpa [allEltKinds] using ha.2)
+  cases l with
+  | nil => rfl
+  | cons a r =>
+    have hr := cdataTop_tail a r h
+    cases r with
+    | nil => rfl
+    | cons c r' =>
+      have hc : isCdataKind c = false := by
+        simp only [allEltKinds, List.all_cons, Bool.and_eq_true, Bool.not_eq_true'] at hr
+        exact hr.1
+      simp only [kindsOk, hc, Bool.and_false, Bool.not_false, Bool.true_and]
+      exact hall _ hr
+
+/-- **The builder's CDATA invariant** (`CdInv`: `cdataOnlyOnTop`; every open frame's children satisfy
+    `Node.noMarkupInCdata` and an open CDATA frame's children are character data; so does the root)
+    holds over any event sequence from the initial context — provided the embedded-document parser
+    `emb` only hands back trees with that property (`EmbOk`; it is `treeOfWbxml` itself, see
+    `cdata_holds_character_data_only`). -/
+theorem cdata_invariant (main : List Lang) (emb : Nat → Bytes → Option Tree) (hemb : EmbOk emb)
+    (events : List Event) : CdInv (events.foldl (buildStep main emb) {}) :=
+  foldl_cdInv main emb hemb events {} cdInv_init
+
+/-- One step, from any context satisfying the invariant. -/
+theorem cdata_invariant_step (main : List Lang) (emb : Nat → Bytes → Option Tree) (hemb : EmbOk emb)
+    (b : BState) (e : Event) (h : CdInv b) : CdInv (buildStep main emb b e) :=
+  buildStep_cdInv main emb hemb b e h
+
+/-- Every node the builder finishes is fine: closing any open frame of a reachable context gives a
+    node without markup inside CDATA (for a CDATA frame: a CDATA node whose children are text nodes
+    and embedded documents only). -/
+theorem closed_frames_no_markup_in_cdata (main : List Lang) (emb : Nat → Bytes → Option Tree) (hemb : EmbOk emb)
+    (events : List Event) :
+    ∀ f ∈ (events.foldl (buildStep main emb) {}).stack, f.close.noMarkupInCdata = true := by
+  intro f hf
+  rw [close_ok]
+  exact (cdata_invariant main emb hemb events).frames f hf
+
+/-- **No markup inside CDATA sections**: in the tree `wbxml_tree_from_wbxml` returns — for all byte
+    strings, all languages tables, any fuel, and through embedded documents — no CDATA node has an
+    element or a CDATA node among its children (`Node.noMarkupInCdata` on the root). The printer
+    therefore writes only character data between `<![CDATA[` and `]]>`. -/
+theorem cdata_holds_character_data_only (main : List Lang) (f lang cs : Nat) (bs : Bytes) (t : Tree)
+    (h : treeOfWbxml main f lang cs bs = .ok t) : t.noMarkupInCdata = true :=
+  treeOfWbxml_noMarkup main f lang cs bs t h
+
+/-- … in terms of the root node. -/
+theorem cdata_holds_character_data_only_root (main : List Lang) (f lang cs : Nat) (bs : Bytes) (t : Tree) (r : Node)
+    (h : treeOfWbxml main f lang cs bs = .ok t) (hr : t.root = some r) : r.noMarkupInCdata = true := by
+  have := cdata_holds_character_data_only main f lang cs bs t h
+  unfold Tree.noMarkupInCdata at this
+  rw [hr] at this
+  exact this
+
+/-- What `Node.noMarkupInCdata` says at a CDATA node: its children are text nodes and embedded
+    documents, and (recursively) its children satisfy the predicate. -/
+theorem noMarkupInCdata_cdata (kids : List Node) (h : (Node.cdata kids).noMarkupInCdata = true) :
+    (∀ k ∈ kids, (∃ s, k = .text s) ∨ (∃ l c r, k = .tree l c r)) ∧ ∀ k ∈ kids, k.noMarkupInCdata = true := by
+  refine ⟨cdata_kids_charData kids h, ?_⟩
+  simp only [Node.noMarkupInCdata, Bool.and_eq_true] at h
+  have h2 := h.2
+  rw [noMarkupInCdataL_eq, List.all_eq_true] at h2
+  exact h2
+
+/-- … and at an element / embedded document: it is the predicate on the children / the root. -/
+theorem noMarkupInCdata_elt (n : Name) (a : List Attr) (kids : List Node) :
+    (Node.elt n a kids).noMarkupInCdata = kids.all Node.noMarkupInCdata := by
+  simp only [Node.noMarkupInCdata]; exact noMarkupInCdataL_eq kids
+
+/-- The predicate is not vacuous: it holds of a CDATA node with text, fails for an element or a CDATA
+    node inside a CDATA node (at any depth, also inside an embedded document). -/
+example : (Node.elt (.literal b!"Data") [] [.cdata [.text b!"abc"]]).noMarkupInCdata = true := by decide
+example : (Node.cdata [.text b!"abc", .elt (.literal b!"Meta") [] []]).noMarkupInCdata = false := by decide
+example : (Node.elt (.literal b!"Data") [] [.cdata [.cdata []]]).noMarkupInCdata = false := by decide
+example : (Node.tree none 106 (some (.cdata [.elt (.literal b!"a") [] []]))).noMarkupInCdata = false := by decide
+
 /-- Events of `<Item><Meta><Type>text/x-vcard</Type></Meta><Data>abc<Meta><Type>text/x-vcard</Type></Meta>
-    <Data>x</Data></Data></Item>`. -/
+    <Data>x</Data></Data></Item>` — the former witness of CDATA nested through an element. -/
 def nestedWitness : List Event :=
   let nItem : Name := .literal b!"Item"
   let nMeta : Name := .literal b!"Meta"
@@ -210,14 +334,26 @@ def cdataDepth : Nat → Node → Nat
   | f + 1, .elt _ _ kids => (kids.map (cdataDepth f)).foldl max 0
   | _ + 1, _ => 0
 
-/-- **`cdata_never_nested` does not extend through elements** (defect candidate): an element start
-    while a CDATA section is open is attached *inside* the CDATA node, and a `Data` element there
-    whose `Meta/Type` (found among the CDATA node's children) is a vObject type opens a second
-    CDATA section inside the first. The real `wbxml2xml` prints `<![CDATA[abc<Meta>…<Data><![CDATA[x]]>
-    </Data>]]>` for the corresponding 71-byte SyncML document, which no XML parser accepts. -/
-theorem cdata_nested_through_element :
-    ((nestedWitness.foldl (buildStep [] (fun _ _ => none)) {}).root.map (cdataDepth 10)) = some 2 := by
+/-- **Regression for the repaired defect.** Before fix eb6f4c7 this event list built a CDATA node
+    holding `abc`, the `Meta` element and the inner `Data` element with a second CDATA node (CDATA
+    depth 2; `wbxml2xml` printed `<![CDATA[abc<Meta>…<Data><![CDATA[x]]></Data>]]>`, which no XML parser
+    accepts). Now the element start closes the section: the outer `Data` element holds the CDATA
+    node `abc`, then `Meta`, then the inner `Data` with its own CDATA node — depth 1, and the root
+    satisfies `Node.noMarkupInCdata`. -/
+theorem cdata_former_witness_fixed :
+    ((nestedWitness.foldl (buildStep [] (fun _ _ => none)) {}).root.map (cdataDepth 10)) = some 1 ∧
+    ((nestedWitness.foldl (buildStep [] (fun _ _ => none)) {}).root.map Node.noMarkupInCdata) = some true := by
   decide +kernel
+
+/-- The tree built from the former witness, explicitly. -/
+example :
+    let t (s : Bytes) : Node := .elt (.literal b!"Meta") [] [.elt (.literal b!"Type") [] [.text s]]
+    (nestedWitness.foldl (buildStep [] (fun _ _ => none)) {}).root =
+      some (Node.elt (.literal b!"Item") [] [t b!"text/x-vcard",
+        .elt (.literal b!"Data") [] [.cdata [.text b!"abc"], t b!"text/x-vcard",
+          .elt (.literal b!"Data") [] [.cdata [.text b!"x"]]]]) := by
+  intro t
+  rfl
 
 /-! ## Attributes -/
 
